@@ -14,6 +14,7 @@ import (
 	"io"
 	"net/http"
 	"net/http/httptest"
+	"strconv"
 	"testing"
 	"time"
 
@@ -32,6 +33,8 @@ type c04SigCase struct {
 	Off2   int64     `json:"off2"` // timestamp offset of V and T
 	Tamper string    `json:"tamper"`
 	Arg    int       `json:"arg,omitempty"`
+	TFr    string    `json:"tfr,omitempty"`   // framing of the tampered request ("=": as the valid twin)
+	Shape  string    `json:"shape,omitempty"` // header shape of the tampered request
 }
 
 func c04Decryptors() (map[string]codec.RsaDecryptor, error) {
@@ -46,14 +49,37 @@ func c04Decryptors() (map[string]codec.RsaDecryptor, error) {
 	return m, nil
 }
 
-func c04HTTPRequest(w c04Wire) *http.Request {
-	var body io.Reader
-	if w.Body != nil {
-		body = bytes.NewReader(w.Body)
+// c04ChunkReader hides the concrete reader type and hands the body out in small
+// pieces, the way a chunked upload arrives.
+type c04ChunkReader struct{ r io.Reader }
+
+func (c c04ChunkReader) Read(p []byte) (int, error) {
+	if len(p) > 7 {
+		p = p[:7]
 	}
-	req := httptest.NewRequest(w.Method, w.target(), body)
+	return c.r.Read(p)
+}
+
+// c04HTTPRequest builds the *http.Request the way net/http would hand it to the
+// handler chain for the chosen framing.
+func c04HTTPRequest(w c04Wire) *http.Request {
+	req := httptest.NewRequest(w.Method, w.target(), bytes.NewReader(w.Body))
+	switch {
+	case w.Framing == "chunked":
+		// Transfer-Encoding: chunked: unknown length, body always non-nil
+		req.ContentLength = -1
+		req.TransferEncoding = []string{"chunked"}
+		req.Body = io.NopCloser(c04ChunkReader{bytes.NewReader(w.Body)})
+	case w.Framing == "nobody" && len(w.Body) == 0:
+		req.ContentLength = 0
+		req.Body = http.NoBody
+	default:
+		req.Header.Set("Content-Length", strconv.Itoa(len(w.Body)))
+	}
 	if !w.NoHeader {
-		req.Header.Set("X-Content-Security", w.headerValue())
+		for _, v := range w.headerValues() {
+			req.Header.Add("X-Content-Security", v)
+		}
 	}
 	if w.ReqURI {
 		req.Header.Set("X-Request-Uri", w.requestURI())
@@ -75,7 +101,7 @@ func c04SigJudge(what string, exp c04Exp, wantBody []byte, code int, seen *c04Si
 		if code != http.StatusOK {
 			return fmt.Sprintf("%s: handler ran but status is %d", what, code)
 		}
-		if !bytes.Equal(seen.body, wantBody) {
+		if wantBody != nil && !bytes.Equal(seen.body, wantBody) {
 			return fmt.Sprintf("%s: handler read body %q, original is %q", what, seen.body, wantBody)
 		}
 	case c04Reject:
@@ -124,6 +150,26 @@ func c04SigInterp(t *testing.T, c c04SigCase) (v kit.Verdict) {
 			classes["unverified-method(unjudged)"] = true
 		}
 		classes[fmt.Sprintf("ctype%d", c.Req.CType)] = true
+		plain := c.Req.plainBody()
+		wantBody := append([]byte{}, plain...)
+		fr := c.Req.Fr
+		if fr == "nobody" && len(plain) > 0 {
+			fr = ""
+		}
+		switch {
+		case len(plain) == 0:
+			classes["body:0/"+fr] = true
+		case len(plain) == 1:
+			classes["body:1/"+fr] = true
+		default:
+			classes["body:n/"+fr] = true
+		}
+		if c.Req.CType == 1 && fr == "chunked" && len(plain) > 0 {
+			// the statement is about the gate; whether a chunked encrypted body is
+			// decrypted for the handler is the crypto handler's business
+			wantBody = nil
+			classes["chunked+encrypted(body unjudged)"] = true
+		}
 		if c.Req.ReqURI {
 			classes["x-request-uri"] = true
 		}
@@ -145,7 +191,7 @@ func c04SigInterp(t *testing.T, c c04SigCase) (v kit.Verdict) {
 			classes["A:just-inside"] = true
 		}
 		classes["A:"+expA.String()] = true
-		if msg := c04SigJudge(fmt.Sprintf("A (timestamp now%+ds, tolerance %v, now has %dms)", c.Off, tol, c.NowMs), expA, []byte(c.Req.Body), code, s); msg != "" {
+		if msg := c04SigJudge(fmt.Sprintf("A (timestamp now%+ds, tolerance %v, now has %dms)", c.Off, tol, c.NowMs), expA, wantBody, code, s); msg != "" {
 			fail = msg
 			return
 		}
@@ -165,7 +211,7 @@ func c04SigInterp(t *testing.T, c c04SigCase) (v kit.Verdict) {
 		}
 		wireV := c04Sign(c.Req, tsV)
 		code, s = send(wireV)
-		if msg := c04SigJudge(fmt.Sprintf("V (valid twin, timestamp now%+ds, tolerance %v)", c.Off2, tol), expV, []byte(c.Req.Body), code, s); msg != "" {
+		if msg := c04SigJudge(fmt.Sprintf("V (valid twin, timestamp now%+ds, tolerance %v)", c.Off2, tol), expV, wantBody, code, s); msg != "" {
 			fail = msg
 			return
 		}
@@ -179,6 +225,12 @@ func c04SigInterp(t *testing.T, c c04SigCase) (v kit.Verdict) {
 			classes["tamper-identity"] = true
 			return
 		}
+		if c.TFr != "=" {
+			wireT.Framing = c.TFr
+		}
+		wireT.Shape = c.Shape
+		classes["T-framing:"+wireT.Framing] = true
+		classes["T-shape:"+c.Shape] = true
 		expT := c04Reject
 		if !c.Strict || !c04Verified(wireT.Method) {
 			expT = c04Unspec // the statement speaks about strict mode and GET/POST/PUT/DELETE only
@@ -206,9 +258,9 @@ func c04SigInterp(t *testing.T, c c04SigCase) (v kit.Verdict) {
 
 // ---- generator
 
-var c04Paths = []string{"/", "/a", "/a/b", "/api/v1/users/42", "/x-y_z/0", "/a/b/c/d/e"}
+var c04Paths = []string{"/", "/a", "/a/b", "/api/v1/users/42", "/x-y_z/0", "/a/b/c/d/e", "/a%20b/c", "/caf%C3%A9/%7Euser"}
 var c04Queries = []string{"", "", "a=1", "c=d&e=f", "q=x%20y&z=", "k", "a=1&a=2"}
-var c04Bodies = []string{"", "", "hello", `{"name":"alice","n":1}`, "0123456789abcdef", "0123456789abcdef0", "üñí\x00\x01 binary", "AAAA"}
+var c04Bodies = []string{"", "", "x", "x", "hello", `{"name":"alice","n":1}`, "0123456789abcdef", "0123456789abcdef0", "üñí\x00\x01 binary", "AAAA"}
 
 func c04GenSigReq(rt *rapid.T) c04SigReq {
 	r := c04SigReq{}
@@ -216,7 +268,14 @@ func c04GenSigReq(rt *rapid.T) c04SigReq {
 	r.Path = rapid.SampledFrom(c04Paths).Draw(rt, "path")
 	r.Query = rapid.SampledFrom(c04Queries).Draw(rt, "query")
 	r.Body = rapid.SampledFrom(c04Bodies).Draw(rt, "body")
+	if r.Body != "" && rapid.IntRange(0, 5).Draw(rt, "big?") == 0 {
+		r.Big = rapid.SampledFrom([]int{17, 4096, 70000}).Draw(rt, "big")
+	}
+	r.Fr = rapid.SampledFrom([]string{"", "", "chunked", "chunked", "nobody"}).Draw(rt, "framing")
 	r.ReqURI = rapid.IntRange(0, 3).Draw(rt, "requri") == 0
+	if r.ReqURI {
+		r.RURel = rapid.Bool().Draw(rt, "rurel")
+	}
 	r.CType = rapid.SampledFrom([]int{0, 0, 1}).Draw(rt, "ctype")
 	if r.CType == 1 {
 		r.KeyLen = rapid.SampledFrom([]int{16, 24, 32}).Draw(rt, "keylen")
@@ -252,6 +311,8 @@ func c04SigGen(rt *rapid.T) c04SigCase {
 	c.Off, c.Off2 = c04GenOffsets(rt, c.TolMs)
 	c.Tamper = rapid.SampledFrom(c04Tampers).Draw(rt, "tamper")
 	c.Arg = rapid.IntRange(0, 1000).Draw(rt, "arg")
+	c.TFr = rapid.SampledFrom([]string{"=", "=", "", "chunked", "chunked", "nobody"}).Draw(rt, "tframing")
+	c.Shape = rapid.SampledFrom(c04Shapes).Draw(rt, "shape")
 	return c
 }
 
